@@ -67,7 +67,12 @@ def one_trace(tid, rng, base_kind, thorough):
     t = dict(id=tid, n=n, max_depth=params["max_depth"], msl=params["min_samples_leaf"], mss=params["min_samples_split"],
              mw_num=mw[0], mw_den=mw[1], site=SITE,
              sig="base=%s improve=%s" % (base_kind, params["fit_improve_algo"]), params={k: repr(v) for k, v in params.items()})
-    model = DecisionTreeLogisticRegression(estimator=est, **params)
+    if rng.random() < 0.5:
+        model = DecisionTreeLogisticRegression(estimator=est, **params)
+    else:       # configured after construction, as clone + set_params of a grid search does
+        model = DecisionTreeLogisticRegression(estimator=est)
+        model.set_params(**params)
+        t["sig"] += " set_params"
     ev = []
     with warnings.catch_warnings():
         warnings.simplefilter("ignore")
@@ -104,6 +109,8 @@ def one_trace(tid, rng, base_kind, thorough):
         P = numpy.array([list(X[rng.randrange(n)]) if rng.random() < 0.6 else [n + q] + [rng.randint(-7, 7) for _ in range(d)]
                          for q in range(m)], dtype=numpy.float64)
         Pfit = P if base_kind == "lookup" else P[:, 1:]
+        if rng.random() < 0.3:
+            Pfit = Pfit.astype(numpy.int64)          # the probe rows are integers: handed over as an integer array
         table = Ids()
         try:
             proba = model.predict_proba(Pfit)
